@@ -12,7 +12,13 @@ for sid in $ids; do
   git -C $wt checkout -q -- . ; git -C $wt apply $d/patch.diff 2>/dev/null || { echo "$sid $chk APPLY-FAILED" | tee -a $out; continue; }
   line=$(cd /verif && VERIF_OUT=/tmp/verif_trial_out VERIF_REPO=$wt ./check $chk 2>&1 | grep -E "^$chk tier" | tail -1)
   v=$(echo "$line" | sed -n 's/.*violations=\([0-9]*\).*/\1/p')
-  if [ -n "$v" ] && [ "$v" -gt 0 ]; then echo "$sid $chk DETECTED violations=$v" | tee -a $out; else echo "$sid $chk MISSED ($line)" | tee -a $out; fi
+  if [ -n "$v" ] && [ "$v" -gt 0 ]; then echo "$sid $chk DETECTED violations=$v" | tee -a $out
+  else
+    # does the change still break the property on this tree?  (later repairs can neutralise an older seeded change)
+    if [ ! -f $d/rebuild.sh ] && PYTHONPATH=$wt timeout 900 /venv/bin/python $d/demo.py >/dev/null 2>&1; then
+      echo "$sid $chk NEUTRALISED (its own demonstration passes on this tree with the change applied)" | tee -a $out
+    else echo "$sid $chk MISSED ($line)" | tee -a $out; fi
+  fi
 done
 git -C $wt checkout -q -- .
 git -C /repo worktree remove --force $wt
